@@ -169,6 +169,17 @@ func (o *concOutcome) sig() string {
 
 func concSetup(w *vfWorld) {
 	w.conc = &concOutcome{Profiles: map[string]string{}}
+	if w.cfg.Sealed {
+		// the unsealing is a one-time transition too: the C09 monitors run and a repeated transition counts here as well
+		sealSetup(w)
+		w.observers = append(w.observers, func(p *vfPrepared, ctx *vfReqCtx, resp *vfResp) {
+			for _, v := range w.res.Violations {
+				if v.Prop == "C09" && v.Class == "double-transition" && v.Step == w.stepIdx {
+					w.violate("C16", "double-spend", "double-spend:unseal-transition", v.Detail)
+				}
+			}
+		})
+	}
 	w.observers = append(w.observers, func(p *vfPrepared, ctx *vfReqCtx, resp *vfResp) {
 		if p.step.Par == 0 && !p.step.Serial {
 			return
@@ -477,6 +488,22 @@ func permutations(n int) [][]int {
 func genConcPlan(r *rand.Rand, tier string) *vfPlan {
 	p := &vfPlan{Cfg: vfCfg{TOTP: true, VIP: true, BootstrapOTP: true, PwBackend: "counting",
 		CertBackends: []string{"U2F", "TOTP", "SymantecVIP"}, WebUIBackends: []string{"U2F", "TOTP", "password", "SymantecVIP", "BootstrapOTP"}}}
+	if chance(r, 0.08) {
+		// a sealed server: several injections (and readiness polls) at once
+		p.Cfg.Sealed = true
+		p.Cfg.Ed25519CA = chance(r, 0.5)
+		p.NoPost = true
+		g := []vfStep{{Op: "inject", A: "right", B: "operator", Par: 1}, {Op: pick(r, []string{"inject", "inject", "readyz"}), A: pick(r, []string{"right", "right", "wrong"}), B: "operator", Par: 1}}
+		if chance(r, 0.5) {
+			g = append(g, vfStep{Op: pick(r, []string{"readyz", "inject"}), A: "right", B: "operator", Par: 1})
+		}
+		p.Steps = append(p.Steps, g...)
+		p.Steps = append(p.Steps, vfStep{Op: "readyz"}, vfStep{Op: "verify_published"})
+		for i := 0; i < 40; i++ {
+			p.Tape = append(p.Tape, r.IntN(6))
+		}
+		return p
+	}
 	okta := chance(r, 0.2)
 	if okta {
 		p.Cfg.PwBackend = "okta"
